@@ -237,6 +237,22 @@ def gen_cases(tier, rng):
         for d in docs:
             for part in partitions(d, k3=thorough and len(d) < 24, empties=False):
                 cases.append(("utf8\tparse\t%s\t%s" % (kind, "|".join(hx(c) for c in part)), "parse"))
+    # ---- the other front ends: one(), from_iter(), read_from() (short reads, Interrupted), LossyDecoder::utf8,
+    #      LossyDecoder::new_from_encoding_rs_decoder(UTF-8)
+    fronts = ("one", "iter", "read", "lossy", "rsdec")
+    for body in bodies[::(1 if thorough else 5)]:
+        for tr in TRAIL[:3]:
+            sb = body + tr
+            for part in partitions(sb, k3=False, empties=True)[:(None if thorough else 6)]:
+                for kind in fronts:
+                    cases.append(("utf8\tfront\t%s\t%s" % (kind, "|".join(hx(c) for c in part)), "front"))
+    # reads larger than read_from's 4096-byte buffer, with a multi-byte character straddling each buffer end
+    for pad in (4094, 4095, 4096, 4097, 8190, 8191, 8192):
+        for ch in (b"\xc3\xa9", b"\xe2\x82\xac", b"\xf0\x9f\x98\x80", b"\xe2\x82", b"\xff"):
+            big = b"a" * pad + ch + b"z" * 5
+            for kind in fronts:
+                cases.append(("utf8\tfront\t%s\t%s" % (kind, hx(big)), "front"))
+                cases.append(("utf8\tfront\t%s\t%s" % (kind, hx(big[:pad + 1]) + "|" + hx(big[pad + 1:])), "front"))
     return cases
 
 
@@ -295,6 +311,18 @@ def oracle(line, out):
         if w[2:].rsplit(" ", 1)[0] != d:
             return "harness reference decode disagrees with Encoding::decode: %s vs %s" % (w, d)
         return None
+    if mode == "front":
+        if " ## W=" not in out:
+            return "front end %s failed: %s" % (f[2], out[:200])
+        sw, w = out.split(" ## W=")
+        text, nerr = sw[2:].rsplit(" ", 1)
+        if text != w:
+            return "front end %s delivers %s, String::from_utf8_lossy of the whole input is %s" % (f[2], text, w)
+        whole = b"".join(unhx(c) for c in f[3].split("|"))
+        want = sum(1 for _, err in ref_units(whole) if err)
+        if int(nerr) != want:
+            return "front end %s reported %s errors for %d replacements" % (f[2], nerr, want)
+        return None
     if mode == "parse":
         a, b = out.split(" ## ")
         return None if a == b else "tree via from_utf8() differs from tree of the lossy string: %s vs %s" % (a, b)
@@ -303,7 +331,7 @@ def oracle(line, out):
 
 def compare(line, impl, model):
     mode = line.split("\t")[1]
-    if mode in ("enc", "parse"):
+    if mode in ("enc", "parse", "front"):
         return model == "no-model"
     return impl == model
 
